@@ -49,6 +49,7 @@ type Engine struct {
 	seenViol     map[string]bool
 	noPanicCheck bool
 	frozenInputs bool
+	symbolicText bool // String()/FormatUint of symbolic values produce real symbolic text instead of an opaque string
 	target       *ssa.Package
 }
 
@@ -1258,6 +1259,18 @@ func (e *Engine) binop(st *State, i *ssa.BinOp, x, y Value) Value {
 			if !a.isObj && !b.isObj && !a.opaque && !b.opaque {
 				return StringV{conc: a.conc + b.conc}
 			}
+			if !a.opaque && !b.opaque {
+				if xa, ok1 := e.stringBytes(st, a); ok1 {
+					if xb, ok2 := e.stringBytes(st, b); ok2 {
+						all := append(append([]*Term(nil), xa...), xb...)
+						o := &Object{typ: types.NewArray(types.Typ[types.Uint8], int64(len(all))), n: len(all)}
+						for _, t := range all {
+							o.slots = append(o.slots, t)
+						}
+						return StringV{isObj: true, obj: st.alloc(o), off: BV(64, 0), ln: BV(64, uint64(len(all)))}
+					}
+				}
+			}
 			return StringV{opaque: true, nonEmpty: a.nonEmpty || b.nonEmpty || (!a.isObj && !a.opaque && a.conc != "") || (!b.isObj && !b.opaque && b.conc != "")}
 		case token.EQL, token.NEQ:
 			eq := e.stringEq(st, a, b)
@@ -1953,7 +1966,7 @@ func (e *Engine) invoke(st *State, fv Value, args []Value, call *ssa.Call, pos t
 		return
 	}
 	name := fn.fn.String()
-	if !e.tolerant && fn.fn.Name() == "String" && len(args) == 1 && isStringMethod(fn.fn) && e.hasSymbolic(st, args[0], 0, map[ObjID]bool{}) {
+	if !e.tolerant && !e.symbolicText && fn.fn.Name() == "String" && len(args) == 1 && isStringMethod(fn.fn) && e.hasSymbolic(st, args[0], 0, map[ObjID]bool{}) {
 		// environment model (DESIGN 3.6): text rendering of a value with symbolic fields is an opaque,
 		// non-empty string; nothing is claimed about rendered text
 		modelsUsed["String() of a value with symbolic fields -> opaque string"]++
